@@ -130,27 +130,93 @@ Section Init.
     reflexivity.
   Qed.
 
-  Theorem init_inv : forall b P mb data chunks, 0 < P ->
-    exists s, init v b P mb data chunks = Some s /\ Inv (length data) s /\ rest s = data.
+  (* any freshly made map that starts on a page boundary at or below the read position satisfies the invariant *)
+  Lemma mmap_state_inv : forall P d data src fu moff ignore size ae ls0,
+    0 < P -> P <= d -> moff mod P = 0 -> ignore < size -> moff + size <= length data ->
+    (ae = true -> moff + size = length data) -> (ae = false -> moff + size < length data /\ size = d) ->
+    length data + 2 <= fu ->
+    let s1 := mk_fp (firstn size (skipn moff data)) ignore ls0 moff d ae false true P data src fu in
+    let s := set_ls s1 (pos s1 + last_space_rel (avail s1)) in
+    Inv (length data) s /\ rest s = skipn (moff + ignore) data.
   Proof.
-    intros b P mb data chunks HP. destruct b; simpl.
+    intros P d data src fu moff ignore size ae ls0 HP Hd Hal Hig Hsz Hae1 Hae0 Hfu s1 s.
+    assert (Lb : length (buf s1) = size) by (subst s1; simpl; rewrite firstn_length, skipn_length; lia).
+    assert (Hp1 : pos s1 <= length (buf s1)) by (rewrite Lb; subst s1; simpl; lia).
+    destruct (set_ls_inv_parts s1 Hp1) as (L1 & L2).
+    assert (Av : avail s1 = firstn (size - ignore) (skipn (moff + ignore) data)).
+    { unfold avail. subst s1. simpl. rewrite skipn_firstn_comm, skipn_skipn_add. reflexivity. }
+    assert (Fu : future s1 = skipn (moff + size) data).
+    { unfold future. subst s1. simpl. rewrite firstn_length, skipn_length. f_equal. lia. }
+    assert (R : rest s = skipn (moff + ignore) data).
+    { unfold rest. subst s. change (avail (set_ls s1 _)) with (avail s1). change (future (set_ls s1 _)) with (future s1).
+      rewrite Av, Fu. set (X := skipn (moff + ignore) data).
+      replace (skipn (moff + size) data) with (skipn (size - ignore) X); [apply firstn_skipn|].
+      unfold X. rewrite skipn_skipn_add. f_equal. lia. }
+    split; [|exact R]. subst s. constructor; try assumption.
+    - change (at_end (set_ls s1 _)) with ae. change (future (set_ls s1 _)) with (future s1). intros E.
+      rewrite Fu. apply skipn_all2. specialize (Hae1 E). lia.
+    - rewrite R, skipn_length. change (offset (set_ls s1 _)) with (offset s1). unfold offset. subst s1. simpl. lia.
+    - rewrite R, skipn_length. change (fuel (set_ls s1 _)) with fu. lia.
+    - change (fallback (set_ls s1 _)) with false. discriminate.
+    - intros _. change (buf (set_ls s1 _)) with (buf s1). change (mo (set_ls s1 _)) with moff. change (page (set_ls s1 _)) with P.
+      change (at_end (set_ls s1 _)) with ae. change (file (set_ls s1 _)) with data. change (dms (set_ls s1 _)) with d.
+      change (mapped (set_ls s1 _)) with true. rewrite Lb.
+      split; [reflexivity|]. split; [exact Hal|]. split; [reflexivity|]. split; [exact Hae1|]. intros E. destruct (Hae0 E). split; assumption.
+  Qed.
+
+  (* a descriptor handed over at offset k inside a regular file *)
+  Lemma init_file_at_inv : forall k P mb data chunks, 0 < P -> k < length data ->
+    exists s, init_file_at v k P mb data chunks = Some s /\ Inv (length data) s /\ rest s = skipn k data.
+  Proof.
+    intros k P mb data chunks HP Hk. unfold init_file_at, init_common, shift, mmap_shift.
+    cbn -[Nat.modulo Nat.div Nat.mul Nat.max Nat.leb Nat.eqb Nat.sub firstn skipn length last_space_rel transition_to_read read_shift set_ls avail].
+    rewrite andb_false_r. set (d := P * Nat.max (mb / P + 1) 2).
+    assert (Hd : P <= d) by (apply dms_init_ge; exact HP).
+    set (ignore := k mod P). set (moff := k - ignore).
+    assert (Hil : ignore < P) by (apply Nat.mod_upper_bound; lia).
+    assert (Hile : ignore <= k) by (apply Nat.mod_le; lia).
+    assert (Hmk : moff + ignore = k) by (unfold moff; lia).
+    assert (Hal : moff mod P = 0).
+    { unfold moff, ignore. pose proof (Nat.div_mod_eq k P) as E.
+      replace (k - k mod P) with (P * (k / P)) by lia. rewrite Nat.mul_comm. apply Nat.mod_mul. lia. }
+    destruct (length data - moff <=? d) eqn:El.
+    - apply Nat.leb_le in El. destruct (length data - moff =? 0) eqn:Ez; [apply Nat.eqb_eq in Ez; lia|].
+      cbn [fallback].
+      destruct (mmap_state_inv P d data (mk_src [] [] chunks) (S (S (length data))) moff ignore (length data - moff) true 0
+                  HP Hd Hal ltac:(lia) ltac:(lia) ltac:(intros; lia) ltac:(intros E; discriminate) ltac:(lia)) as (I1 & R1).
+      eexists. split; [reflexivity|]. split; [exact I1|]. rewrite R1, Hmk. reflexivity.
+    - apply Nat.leb_gt in El. destruct (d =? 0) eqn:Ez; [apply Nat.eqb_eq in Ez; lia|].
+      cbn [fallback].
+      destruct (mmap_state_inv P d data (mk_src [] [] chunks) (S (S (length data))) moff ignore d false 0
+                  HP Hd Hal ltac:(lia) ltac:(lia) ltac:(intros E; discriminate) ltac:(intros; split; [lia|reflexivity]) ltac:(lia)) as (I1 & R1).
+      eexists. split; [reflexivity|]. split; [exact I1|]. rewrite R1, Hmk. reflexivity.
+  Qed.
+
+  (* BFileAt k needs the descriptor to sit inside the file *)
+  Definition at_ok (b : backend) (data : list N) : Prop := match b with BFileAt k => k < length data | _ => True end.
+
+  Theorem init_inv : forall b P mb data chunks, 0 < P -> at_ok b data ->
+    exists s, init v b P mb data chunks = Some s /\ Inv (length data) s /\ rest s = skipn (start_of b) data.
+  Proof.
+    intros b P mb data chunks HP Hok. destruct b; simpl.
     - now apply init_file_inv.
     - now apply init_pipe_inv.
     - now apply init_stream_inv.
     - now apply init_pipe_stream_inv.
     - rewrite init_file_nommap_eq by exact HP. now apply init_pipe_inv.
+    - now apply init_file_at_inv.
   Qed.
 End Init.
 
 (* ---------------------------------------------------------------------------------------------- *)
 (* the main theorem, for any variant with the three repairs *)
 Theorem window_refines_spec : forall v, fix_offset v = true -> fix_peek v = true -> fix_nan v = true ->
-  forall b P mb data chunks ops, 0 < P ->
+  forall b P mb data chunks ops, 0 < P -> at_ok b data ->
   exists tr, transcript v b P mb data chunks ops = Some tr /\
-             Forall2 obs_agree (spec_run (length data) ops data) tr.
+             Forall2 obs_agree (spec_run (length data) ops (skipn (start_of b) data)) tr.
 Proof.
-  intros v Hfo Hfp Hfn b P mb data chunks ops HP.
-  destruct (init_inv v Hfo b P mb data chunks HP) as (s & Hi & I & R).
+  intros v Hfo Hfp Hfn b P mb data chunks ops HP Hok.
+  destruct (init_inv v Hfo b P mb data chunks HP Hok) as (s & Hi & I & R).
   unfold transcript. rewrite Hi. eexists. split; [reflexivity|].
   pose proof (run_refines v Hfo Hfp Hfn (length data) ops s I) as H. rewrite R in H. exact H.
 Qed.
@@ -199,11 +265,11 @@ Proof.
 Qed.
 
 Theorem fuel_suffices : forall v, fix_offset v = true -> fix_peek v = true -> fix_nan v = true ->
-  forall b P mb data chunks ops tr, 0 < P -> transcript v b P mb data chunks ops = Some tr ->
+  forall b P mb data chunks ops tr, 0 < P -> at_ok b data -> transcript v b P mb data chunks ops = Some tr ->
   Forall (fun x => fst x <> ROutOfFuel) tr.
 Proof.
-  intros v Hfo Hfp Hfn b P mb data chunks ops tr HP Ht.
-  destruct (window_refines_spec v Hfo Hfp Hfn b P mb data chunks ops HP) as (tr' & Ht' & F).
+  intros v Hfo Hfp Hfn b P mb data chunks ops tr HP Hok Ht.
+  destruct (window_refines_spec v Hfo Hfp Hfn b P mb data chunks ops HP Hok) as (tr' & Ht' & F).
   rewrite Ht in Ht'. inversion Ht'; subst tr'. clear Ht'.
   eapply forall2_no_fuel; [exact F|apply spec_run_no_fuel].
 Qed.
@@ -282,14 +348,14 @@ Proof.
 Qed.
 
 Theorem no_split_merge : forall v, fix_offset v = true -> fix_peek v = true -> fix_nan v = true ->
-  forall b P mb data chunks n, 0 < P ->
+  forall b P mb data chunks n, 0 < P -> at_ok b data ->
   exists tr, transcript v b P mb data chunks (repeat ODelim n) = Some tr /\
-             map fst tr = expect_words n (words data).
+             map fst tr = expect_words n (words (skipn (start_of b) data)).
 Proof.
-  intros v Hfo Hfp Hfn b P mb data chunks n HP.
-  destruct (init_inv v Hfo b P mb data chunks HP) as (s & Hi & I & R).
+  intros v Hfo Hfp Hfn b P mb data chunks n HP Hok.
+  destruct (init_inv v Hfo b P mb data chunks HP Hok) as (s & Hi & I & R).
   unfold transcript. rewrite Hi. eexists. split; [reflexivity|].
-  rewrite <- (spec_delims_words (length data) n data).
+  rewrite <- (spec_delims_words (length data) n (skipn (start_of b) data)).
   pose proof (run_refines_exact v Hfo Hfp Hfn (length data) (repeat ODelim n) s I) as H. rewrite R in H. apply H.
   clear. induction n; simpl; [reflexivity|assumption].
 Qed.
@@ -303,24 +369,26 @@ Proof.
 Qed.
 
 Theorem transparent : forall b1 b2 P mb1 mb2 data chunks1 chunks2 ops, 0 < P ->
+  at_ok b1 data -> at_ok b2 data -> start_of b1 = start_of b2 ->
   exists tr1 tr2, transcript repaired b1 P mb1 data chunks1 ops = Some tr1 /\
                   transcript repaired b2 P mb2 data chunks2 ops = Some tr2 /\
-                  Forall2 obs_agree (spec_run (length data) ops data) tr1 /\
-                  Forall2 obs_agree (spec_run (length data) ops data) tr2 /\
+                  Forall2 obs_agree (spec_run (length data) ops (skipn (start_of b1) data)) tr1 /\
+                  Forall2 obs_agree (spec_run (length data) ops (skipn (start_of b1) data)) tr2 /\
                   map snd tr1 = map snd tr2.
 Proof.
-  intros b1 b2 P mb1 mb2 data c1 c2 ops HP.
-  destruct (window_refines_spec repaired eq_refl eq_refl eq_refl b1 P mb1 data c1 ops HP) as (t1 & E1 & F1).
-  destruct (window_refines_spec repaired eq_refl eq_refl eq_refl b2 P mb2 data c2 ops HP) as (t2 & E2 & F2).
+  intros b1 b2 P mb1 mb2 data c1 c2 ops HP K1 K2 E.
+  destruct (window_refines_spec repaired eq_refl eq_refl eq_refl b1 P mb1 data c1 ops HP K1) as (t1 & E1 & F1).
+  destruct (window_refines_spec repaired eq_refl eq_refl eq_refl b2 P mb2 data c2 ops HP K2) as (t2 & E2 & F2).
+  rewrite <- E in F2.
   exists t1, t2. repeat split; try assumption. eapply forall2_offsets; eauto.
 Qed.
 
-Theorem exact_ops_equal : forall b P mb data chunks ops, 0 < P -> forallb exact_op ops = true ->
+Theorem exact_ops_equal : forall b P mb data chunks ops, 0 < P -> at_ok b data -> forallb exact_op ops = true ->
   exists tr, transcript repaired b P mb data chunks ops = Some tr /\
-             map fst tr = map fst (spec_run (length data) ops data).
+             map fst tr = map fst (spec_run (length data) ops (skipn (start_of b) data)).
 Proof.
-  intros b P mb data chunks ops HP E.
-  destruct (init_inv repaired eq_refl b P mb data chunks HP) as (s & Hi & I & R).
+  intros b P mb data chunks ops HP Hok E.
+  destruct (init_inv repaired eq_refl b P mb data chunks HP Hok) as (s & Hi & I & R).
   unfold transcript. rewrite Hi. eexists. split; [reflexivity|].
   pose proof (run_refines_exact repaired eq_refl eq_refl eq_refl (length data) ops s I E) as H. now rewrite R in H.
 Qed.
@@ -338,24 +406,24 @@ Qed.
 (* the hypotheses of after_eof are satisfiable: the state every constructor builds on the empty input *)
 Example after_eof_hypotheses_satisfiable : exists s, Inv 0 s /\ rest s = [].
 Proof.
-  destruct (init_inv repaired eq_refl BFile 4096 1 [] [] ltac:(lia)) as (s & _ & I & R). exists s. split; assumption.
+  destruct (init_inv repaired eq_refl BFile 4096 1 [] [] ltac:(lia) I) as (s & _ & I & R). exists s. split; assumption.
 Qed.
 
 (* signals are invisible at the level of the transcript: a run in which read() calls are interrupted (any number of
    times, anywhere -- also before the very first byte) and the same run without the interruptions agree with the same
    specification transcript, report the same offsets, and return equal values for the exact operations *)
-Theorem interrupts_invisible : forall b P mb data chunks ops, 0 < P ->
+Theorem interrupts_invisible : forall b P mb data chunks ops, 0 < P -> at_ok b data ->
   exists tr1 tr2, transcript repaired b P mb data chunks ops = Some tr1 /\
                   transcript repaired b P mb data (strip_interrupts chunks) ops = Some tr2 /\
-                  Forall2 obs_agree (spec_run (length data) ops data) tr1 /\
-                  Forall2 obs_agree (spec_run (length data) ops data) tr2 /\
+                  Forall2 obs_agree (spec_run (length data) ops (skipn (start_of b) data)) tr1 /\
+                  Forall2 obs_agree (spec_run (length data) ops (skipn (start_of b) data)) tr2 /\
                   map snd tr1 = map snd tr2 /\
                   (forallb exact_op ops = true -> map fst tr1 = map fst tr2).
 Proof.
-  intros b P mb data chunks ops HP.
-  destruct (transparent b b P mb mb data chunks (strip_interrupts chunks) ops HP) as (t1 & t2 & E1 & E2 & F1 & F2 & O).
+  intros b P mb data chunks ops HP Hok.
+  destruct (transparent b b P mb mb data chunks (strip_interrupts chunks) ops HP Hok Hok eq_refl) as (t1 & t2 & E1 & E2 & F1 & F2 & O).
   exists t1, t2. repeat split; try assumption. intros Ex.
-  destruct (exact_ops_equal b P mb data chunks ops HP Ex) as (u1 & U1 & V1).
-  destruct (exact_ops_equal b P mb data (strip_interrupts chunks) ops HP Ex) as (u2 & U2 & V2).
+  destruct (exact_ops_equal b P mb data chunks ops HP Hok Ex) as (u1 & U1 & V1).
+  destruct (exact_ops_equal b P mb data (strip_interrupts chunks) ops HP Hok Ex) as (u2 & U2 & V2).
   rewrite E1 in U1. rewrite E2 in U2. inversion U1; inversion U2; subst. now rewrite V1, V2.
 Qed.
